@@ -58,13 +58,13 @@ def main(ctx):
 
     # release build: wrapping arithmetic
     bindir = ctx.harness(GROUP, profile="release", bins=["c11"], hooks=False)
-    cases = ctx.gen_exec(bindir, "c11", ctx.n(1500, 20000), inputs=ctx.replay_inputs())
+    cases = ctx.gen_exec(bindir, "c11", ctx.n(1500, 12000), inputs=ctx.replay_inputs())
     ctx.correspond("simplify/range/is_positive/eval (release build)", GROUP, REQ, cases,
                    show="show", agree=agree, fn_name=fn)
 
     # debug build: overflow panics (simplify must not panic; eval panics = EOvf of the model)
     bindir = ctx.harness(GROUP, profile="debug", bins=["c11"], hooks=False)
-    cases = ctx.gen_exec(bindir, "c11", ctx.n(600, 5000), extra_gen=["lite"], inputs=ctx.replay_inputs())
+    cases = ctx.gen_exec(bindir, "c11", ctx.n(600, 3000), extra_gen=["lite"], inputs=ctx.replay_inputs())
     ctx.correspond("simplify/range/is_positive/eval (debug build)", GROUP, REQ, cases,
                    show="show", agree=agree, fn_name=fn)
     # known finding F17b: with overflow-checked evaluation the simplified tree may trap on an
